@@ -702,7 +702,7 @@ def run():
            ("parse_operations", find_def(tree, "ParseOperations", "Class")), ("package", find_def(tree, "ParseClassesInPackage", "Package")),
            ("inheritance", find_def(tree, "Parse", "Inheritance")), ("association", find_def(tree, "ParseAssociation", "Association")),
            ("nested_type_names", find_def(tree, "GetNestedTypeNamesFromNestedTypeIDS")), ("values_from_outside", find_def(fs, "Get_ValuesFromOutside")),
-           ("parse_blob", find_def(fs, "ParseBLOB_Recursive")), ("split_outside_quotes", find_def(fs, "SplitOutsideQuotes")), ("container_type", find_def(tree, "GetContainerMultiplicityType", "Class")),
+           ("parse_blob", find_def(fs, "ParseBLOB_Recursive")), ("split_outside_quotes", find_def(fs, "SplitOutsideQuotes")), ("unquote_name", find_def(fs, "UnquoteName")), ("container_type", find_def(tree, "GetContainerMultiplicityType", "Class")),
            ("type_and_name", find_def(cpp, "GetTypeAndNameFromMultiplicityAndModifier", "LanguageCPP")),
            ("default_format", find_def(cpp, "GetDefaultFormatFromMultiplicityAndModifier", "LanguageCPP")),
            ("loadandtest", find_def(tree, "LoadAndTest", "ClassDiagram"))]
